@@ -21,6 +21,8 @@ OUT = '/verif/seeded'
 # confirmation run does not change the verdicts half-way
 BIN = f'/verif/bin/clusterlint-confirm-{os.getpid()}'  # beside the real one: the fixture path is relative to it
 STATIC_ONLY = os.environ.get('STATIC_ONLY') == '1'
+# revision of /repo the seeds were written against (a later fix: commit may touch the same lines)
+BASE_REV = os.environ.get('BASE_REV', 'HEAD')
 NOBUILD = ('cluster.go', 'allocate.go', 'rpc_api.go', 'util.go', 'cluster_config.go', 'api/rest/', 'cmdutils/', 'cmd/ipfs-cluster-service', 'cmd/ipfs-cluster-follow')
 
 
@@ -84,11 +86,13 @@ def confirm(prop, k):
     meta = {'seed': sid, 'property': prop, 'touched_files': touched, 'origin': 'independent sub-agent given only the property text and a scratch worktree'}
     readme = open(f'{src}/README.md').read() if os.path.exists(f'{src}/README.md') else ''
     meta['needs_to_manifest'] = extract_needs(readme)
+    if BASE_REV != 'HEAD':
+        meta['base_revision'] = BASE_REV + ' (the patch was written against this revision of /repo; a later fix: commit touches the same lines)'
     wt = tempfile.mkdtemp(prefix=f'cf-{sid}-', dir='/tmp')
     os.rmdir(wt)
     ovd = tempfile.mkdtemp(prefix='ov-', dir='/tmp')
     try:
-        rc, out = run(f'git -C /repo worktree add -q --detach {wt} HEAD', '/')
+        rc, out = run(f'git -C /repo worktree add -q --detach {wt} {BASE_REV}', '/')
         if rc != 0:
             meta['error'] = 'worktree: ' + out
             return sid, meta
